@@ -194,12 +194,13 @@ prefix_list = st.one_of(
 @st.composite
 def update_case(draw):
     asn4 = draw(st.booleans())
-    shape = draw(st.sampled_from(['announce', 'announce', 'withdraw', 'both']))
+    shape = draw(st.sampled_from(['announce', 'announce', 'withdraw', 'both', 'withdraw+attrs', 'attrs-only']))
     case = {'asn4': asn4, 'attr': {}, 'order': [], 'nlri': [], 'withdraw': []}
-    if shape in ('announce', 'both'):
+    if shape in ('announce', 'both', 'withdraw+attrs', 'attrs-only'):
         case['attr'], case['order'] = draw(attrs(asn4))
+    if shape in ('announce', 'both'):
         case['nlri'] = draw(prefix_list)
-    if shape in ('withdraw', 'both'):
+    if shape in ('withdraw', 'both', 'withdraw+attrs'):
         case['withdraw'] = draw(prefix_list)
     return case
 
@@ -355,7 +356,8 @@ def run_shard(spec, seed, col, tier):
     if spec['kind'] == 'hyp':
         def body(case):
             status, res = check_case(case)
-            shape = ('both' if case['nlri'] and case['withdraw'] else 'announce' if case['nlri'] else 'withdraw')
+            shape = ('both' if case['nlri'] and case['withdraw'] else 'announce' if case['nlri'] else
+                     ('withdraw+attrs' if case['attr'] and case['withdraw'] else 'withdraw' if case['withdraw'] else 'attrs-only'))
             labels = ['shape:' + shape, 'asn4:%s' % case['asn4'], 'status:' + status]
             labels += ['attr:%s' % k for k in case['attr']]
             col.case(case, nontrivial(case), labels=labels)
